@@ -323,4 +323,5 @@ func main() {
 	writeIfChanged(filepath.Join(out, "Alias.v"), p.emitAlias()+p.emitGlobals())
 	writeIfChanged(filepath.Join(out, "WriteGen.v"), p.emitWriteGen())
 	writeIfChanged(filepath.Join(out, "PsiWriteGen.v"), p.emitPsiWriteGen())
+	writeIfChanged(filepath.Join(out, "RestGen.v"), p.emitRestGen())
 }
